@@ -46,7 +46,7 @@ def chHi : α := PNorm.dy 9007181240342483 53
 same definitions at `Float` on the implementation's outcome) -/
 
 /-- `incompleteGamma` returns its error value -1 -/
-def igSentinel (x a : α) : Bool := !(eqb x zero) && (ltb x zero || leb a zero)
+def igSentinel (x a : α) : Bool := ltb x zero || leb a zero
 /-- `pGamma` raises -/
 def pGammaRaises (a b : α) : Bool := ltb a zero || ltb b zero
 /-- `pChisq` raises -/
@@ -58,10 +58,18 @@ def ibRaises (x a b : α) : Bool := leb a zero || leb b zero || ltb x zero || gt
 /-- `qBeta` raises because of its argument checks -/
 def qBetaRaises (p a b : α) : Bool := ltb p zero || gtb p one || ltb a zero || ltb b zero
 
-/-- `RandomTools::incompleteGamma`, cpp:143-155: `x == 0 → 0`, then `x < 0 || alpha <= 0 → -1` -/
-def incompleteGamma (K : Kernels α) (x a g : α) : α :=
+/-- `RandomTools::incompleteGamma` as in the snapshot (cpp:151-154 before the repair): the
+shortcut `x == 0 → 0` came first, so `(0, alpha <= 0)` gave 0 instead of the error value -/
+def incompleteGammaOld (K : Kernels α) (x a g : α) : α :=
   if eqb x zero then zero
   else if ltb x zero || leb a zero then minusOne
+  else K.igCore x a g
+
+/-- `RandomTools::incompleteGamma` (repaired), cpp:143-155: `x < 0 || alpha <= 0 → -1`, then
+`x == 0 → 0`, then the kernel -/
+def incompleteGamma (K : Kernels α) (x a g : α) : α :=
+  if ltb x zero || leb a zero then minusOne
+  else if eqb x zero then zero
   else K.igCore x a g
 
 /-- `RandomTools::pGamma`, RandomTools.h:545-551 -/
